@@ -87,6 +87,8 @@ AllChunked(e) == \A i \in 1..Len(e.cfgs) : e.cfgs[i][1] = "chunked"
 \* a non-zero seek that a later diff entry depends on
 SeekMatters(ctrl) == LET f == SelectInSeq(ctrl, LAMBDA c : c[3] # 0)         \* first non-zero seek, 0 = none
                      IN f > 0 /\ \E j \in (f + 1)..Len(ctrl) : ctrl[j][1] > 0
+SeekMattersBig(ctrl) == LET f == SelectInSeq(ctrl, LAMBDA c : c[3] # <<0, 0, 0>>)
+                        IN f > 0 /\ \E j \in (f + 1)..Len(ctrl) : ctrl[j][1] > 0
 UsesDiff(ctrl)    == \E i \in 1..Len(ctrl) : ctrl[i][1] > 0
 
 \* informational: the code-shaped model of the builder writes the same blocks
@@ -111,29 +113,30 @@ JudgeShort(e) ==
   LET st1 == Produced(stats, e) IN
   IF Disputed(e) THEN [good |-> TRUE, dev |-> "", undec |-> TRUE, st |-> st1]
   ELSE IF ~(WellFormed(e) /\ CtrlShapeOK(e.ctrl)) THEN [good |-> FALSE, dev |-> "", undec |-> FALSE, st |-> st1]
-  ELSE IF ~CtrlSmall(e.ctrl) THEN [good |-> TRUE, dev |-> "", undec |-> TRUE, st |-> st1]
+  ELSE IF Len(old) >= W \/ Len(e.diff) >= W \/ Len(e.extra) >= W \/ Len(e.ctrl) >= W
+       THEN [good |-> TRUE, dev |-> "", undec |-> TRUE, st |-> st1]         \* (the driver never logs such a record)
   ELSE
-  LET C == CtrlOf(e.ctrl) IN
-  IF ~Decidable(C) THEN [good |-> TRUE, dev |-> "", undec |-> TRUE, st |-> st1]
-  ELSE
-  LET P    == Patch(C, e.diff, e.extra, HeaderOf(e.hdr).size)
-      A    == Apply(old, P)
+  LET CB   == CtrlBigOf(e.ctrl)                       \* exact, whatever the 8-byte fields hold
+      small == CtrlSmall(e.ctrl)                      \* every field below 2^24: the triples are also small integers
+      C    == IF small THEN CtrlOf(e.ctrl) ELSE <<>>
+      P    == Patch(CB, e.diff, e.extra, HeaderOf(e.hdr).size)
+      A    == ApplyBig(old, P)
       fmt  == A.ok /\ A.out = new                                                     \* (ii)
       impl == \A i \in 1..Len(e.outs) : e.outs[i].ok /\ e.outs[i].b = new              \* (i)
       good == fmt /\ impl
       dA   == /\ ~good
               /\ "F16a" \in KnownDeviations
               /\ AllChunked(e)
-              /\ AbsSeekShape(C)
+              /\ small /\ AbsSeekShape(C)
               /\ A.ok
               /\ LET Z == Apply(old, Patch(ZeroSeeks(C), e.diff, e.extra, P.size)) IN Z.ok /\ Z.out = new
               /\ \A i \in 1..Len(e.outs) : e.outs[i].ok /\ e.outs[i].b = A.out
-      modelled == e.cfgs[1][1] \in {"simple", "chunked"} /\ Len(old) <= 64 /\ Len(new) <= 64
+      modelled == small /\ e.cfgs[1][1] \in {"simple", "chunked"} /\ Len(old) <= 64 /\ Len(new) <= 64
       M    == ModelOf(e, old, new)
       agrees == modelled /\ M.ctrl = C /\ M.diff = e.diff /\ M.extra = e.extra
   IN [good |-> good \/ dA, dev |-> IF dA THEN "F16a" ELSE "", undec |-> FALSE,
-      st |-> [st1 EXCEPT !.with_diff = @ + (IF UsesDiff(C) THEN 1 ELSE 0),
-                         !.with_seek = @ + (IF SeekMatters(C) THEN 1 ELSE 0),
+      st |-> [st1 EXCEPT !.with_diff = @ + (IF UsesDiff(CB) THEN 1 ELSE 0),
+                         !.with_seek = @ + (IF SeekMattersBig(CB) THEN 1 ELSE 0),
                          !.fmt_only = @ + (IF impl /\ ~fmt THEN 1 ELSE 0),
                          !.impl_only = @ + (IF fmt /\ ~impl THEN 1 ELSE 0),
                          !.model_checked = @ + (IF modelled THEN 1 ELSE 0),
@@ -151,9 +154,8 @@ JudgeLong(e) ==
   LET st1 == [Produced(stats, e) EXCEPT !.long_records = @ + 1] IN
   IF Disputed(e) THEN [good |-> TRUE, dev |-> "", undec |-> TRUE, st |-> st1]
   ELSE IF ~(WellFormed(e) /\ e.ctrl_rem = 0) THEN [good |-> FALSE, dev |-> "", undec |-> FALSE, st |-> st1]
-  ELSE IF e.ctrl_big THEN [good |-> TRUE, dev |-> "", undec |-> TRUE, st |-> st1]
   ELSE
-  LET C     == e.ctrl3
+  LET C     == e.ctrl3        \* sizes >= 2^24 logged as 2^30, negative sizes as -1, seeks clamped to +-2^30 (ctrl_big)
       size  == HeaderOf(e.hdr).size
       lenok == size = run.newlen /\ ApplyLen(C, e.dlen, e.elen, size)
       impl  == \A i \in 1..Len(e.outs) : e.outs[i].ok /\ e.outs[i].len = run.newlen /\ e.outs[i].md5 = run.newmd5
@@ -162,7 +164,7 @@ JudgeLong(e) ==
                /\ "F16a" \in KnownDeviations
                /\ AllChunked(e)
                /\ lenok
-               /\ AbsSeekShape(C) /\ SeekMatters(C)
+               /\ ~e.ctrl_big /\ AbsSeekShape(C) /\ SeekMatters(C)
                /\ \A i \in 1..Len(e.outs) : e.outs[i].ok /\ e.outs[i].len = run.newlen /\ e.outs[i].md5 = e.outs[1].md5
   IN [good |-> good \/ dA, dev |-> IF dA THEN "F16a" ELSE "", undec |-> FALSE,
       st |-> [st1 EXCEPT !.with_diff = @ + (IF UsesDiff(C) THEN 1 ELSE 0),
